@@ -668,3 +668,66 @@ Fixpoint run (fixed : bool) (c : config) (t : table) (ops : list (op * N)) : tab
     let (t2, rs) := run fixed c t1 rest in
     (t2, r :: rs)
   end.
+
+(* ------------------------------------------------------------------------------------------ *)
+(* The three public closest iterators.  KBucketsTable::closest_keys, ::closest_values and
+   ::closest_values_predicate build the same ClosestIter (same target, same ClosestBucketsIter)
+   and differ only in the projection [fmap] applied to a bucket when it is reached:
+     closest_keys               b.iter().map(|n| n.key.clone())
+     closest_values             b.iter().map(|n| ClosestValue { key, value })
+     closest_values_predicate   b.iter().map(|n| PredicateValue { key, predicate_match: predicate(&n.value), value })
+   ClosestIter::next applies the pending node of the bucket, projects the bucket with [fmap] and only
+   then sorts the projected array by the distance of [a.as_ref()] (TOut: AsRef<Key<TNodeId>>) to the
+   target.  [t_closest] above is the same iteration with the identity projection (whole nodes); the
+   definitions below transcribe ClosestIter::next for an arbitrary projection [fm] with key [key_of]. *)
+Section ClosestMap.
+  Variable A : Type.
+  Variable fm : node -> A.        (* the item fmap builds from one node of the bucket *)
+  Variable key_of : A -> N.       (* <TOut as AsRef<Key<TNodeId>>>::as_ref *)
+
+  (* v.sort_by(|a, b| target.distance(a.as_ref()).cmp(&target.distance(b.as_ref()))) - stable *)
+  Fixpoint insert_sorted_by (target : N) (a : A) (l : list A) : list A :=
+    match l with
+    | [] => [a]
+    | x :: l' => if N.ltb (N.lxor target (key_of a)) (N.lxor target (key_of x)) then a :: l
+                 else x :: insert_sorted_by target a l'
+    end.
+  Definition sort_by_distance_by (target : N) (l : list A) : list A :=
+    fold_right (insert_sorted_by target) [] l.
+
+  (* ClosestIter::next, run until it returns None *)
+  Fixpoint closest_walk_map (c : config) (t : table) (target : N) (order : list nat) (now : N)
+    : table * list A :=
+    match order with
+    | [] => (t, [])
+    | i :: rest =>
+      let (b, app) := applied_bucket c t i now in
+      let t1 := set_bucket t i b app in
+      let (t2, out) := closest_walk_map c t1 target rest now in
+      (t2, sort_by_distance_by target (map fm (nodes b)) ++ out)
+    end.
+
+  Definition t_closest_map (fixed : bool) (c : config) (t : table) (target : N) (now : N) : table * list A :=
+    closest_walk_map c t target (bucket_order fixed (N.lxor (local t) target)) now.
+End ClosestMap.
+
+(* struct ClosestValue { key, value } *)
+Record closest_value := { cv_key : N; cv_value : val }.
+(* struct PredicateValue { key, predicate_match, value } *)
+Record predicate_value := { pv_key : N; pv_match : bool; pv_value : val }.
+
+(* KBucketsTable::closest_keys *)
+Definition t_closest_keys (fixed : bool) (c : config) (t : table) (target : N) (now : N) : table * list N :=
+  t_closest_map N nkey (fun k => k) fixed c t target now.
+
+(* KBucketsTable::closest_values *)
+Definition t_closest_values (fixed : bool) (c : config) (t : table) (target : N) (now : N)
+  : table * list closest_value :=
+  t_closest_map closest_value (fun n => {| cv_key := nkey n; cv_value := nval n |}) cv_key fixed c t target now.
+
+(* KBucketsTable::closest_values_predicate(target, predicate) *)
+Definition t_closest_values_predicate (fixed : bool) (predicate : val -> bool) (c : config) (t : table)
+  (target : N) (now : N) : table * list predicate_value :=
+  t_closest_map predicate_value
+    (fun n => {| pv_key := nkey n; pv_match := predicate (nval n); pv_value := nval n |}) pv_key
+    fixed c t target now.
